@@ -312,6 +312,22 @@ R.SPEC["unwrapped_"] = R.SPEC["unwrapped"]
 for _a in ("__func__", "fget", "fset", "fdel", "func"):
     declare_pred("obj_" + _a, L.V, L.V, tag="Opt[Obj]")
 R.SPEC["DJANGO_CP"] = ZV(L.const("django_cached_property"), "Opt[Cls]")
+# getattr(obj, "__qualname__", default): the object's own qualified name when it has one (functions do: the same symbol as Func.__qualname__)
+has_qualname = declare_pred("has_qualname", L.V, L.B)
+_fq = L.fn("func_qualname", L.V, L.V)
+R.ATTRS[("Obj", "__qualname__?")] = lambda ip, r, default: ZV(z3.If(has_qualname(r.term), _fq(r.term), as_v(default)), "str")
+R.ATTRS[("Obj", "__qualname__")] = lambda ip, r: (ip.partial(has_qualname(r.term), "AttributeError", None, "__qualname__"), ZV(_fq(r.term), "str"))[1]
+
+
+ax("none-has-no-qualname", z3.Not(has_qualname(L.NONE)))
+
+
+@spec("qualname_or")
+def _qualname_or(ip, a_, kw):
+    """qualname_or(o, d): getattr(o, '__qualname__', d)."""
+    return ZV(z3.If(has_qualname(as_v(a_[0])), _fq(as_v(a_[0])), as_v(a_[1])), "str")
+
+
 R.TAG_CLASS["Row"] = "monkeytype.encoding:CallTraceRow"
 ax("subscript-not-none", L.FA([o, sq], TY.subscript(o, sq) != L.NONE, [TY.subscript(o, sq)]))
 ax("none-plain", z3.And(z3.Not(TY.is_galias(L.NONE)), z3.Not(TY.is_class(L.NONE)), z3.Not(TY.is_tdmeta(L.NONE)), L.NONE != TY.ANY, L.NONE != TY.UNION_BARE))
@@ -327,7 +343,8 @@ def _importable_func(ip, a_, kw):
     env = {"o": ZV(ob, "Obj")}
     fn_of = ip.spec_eval(_FN_OF, env)
     bad = ip.spec_eval(_BAD, env)
-    return ZB(z3.And(resolvable(mm, qq), z3.Not(as_bool(bad)), as_v(fn_of) == ff))
+    own = z3.If(has_qualname(as_v(fn_of)), _fq(as_v(fn_of)), qq) == qq      # the name is still bound to a function that calls itself by that name
+    return ZB(z3.And(resolvable(mm, qq), z3.Not(as_bool(bad)), own, as_v(fn_of) == ff))
 
 
 R.SPEC["FN_OF_TEXT"] = PyC(_FN_OF)
